@@ -1,6 +1,7 @@
 package types
 
 import (
+	"bytes"
 	"encoding/json"
 	"fmt"
 
@@ -99,10 +100,45 @@ func ToXJSON(x XValue) (*XText, *XError) {
 		return XTextEmpty, x.(*XError)
 	}
 
-	marshaled, err := jsonx.Marshal(x)
-	if err != nil {
-		return XTextEmpty, NewXError(err)
+	if xerr := CheckRenderSize(x, true); xerr != nil {
+		return XTextEmpty, xerr
 	}
 
-	return NewXText(string(marshaled)), nil
+	return toXJSON(x)
+}
+
+// converts a value, or a part of a value whose size has been checked, to a JSON string
+func toXJSON(x XValue) (*XText, *XError) {
+	b := &bytes.Buffer{}
+	if xerr := writeJSON(b, x); xerr != nil {
+		return XTextEmpty, xerr
+	}
+	return NewXText(b.String()), nil
+}
+
+// writes a value as JSON. Arrays and objects write their items straight to the buffer, because marshaling each one on
+// its own and then the whole, reads and copies every item once for every array or object it is nested in.
+func writeJSON(b *bytes.Buffer, x XValue) *XError {
+	if IsNil(x) {
+		b.WriteString(`null`)
+		return nil
+	}
+
+	switch typed := x.(type) {
+	case *XError:
+		return typed
+	case *XArray:
+		typed.writeJSON(b)
+		return nil
+	case *XObject:
+		typed.writeJSON(b)
+		return nil
+	}
+
+	marshaled, err := jsonx.Marshal(x)
+	if err != nil {
+		return NewXError(err)
+	}
+	b.Write(marshaled)
+	return nil
 }
